@@ -682,6 +682,7 @@ func (t *Tokenizer) skipWhitespace() {
 
 // nextToken picks out the next token from the input
 func (t *Tokenizer) nextToken() (models.Token, error) {
+	verifOnNextToken(t)
 	if t.pos.Index >= len(t.input) {
 		return models.Token{Type: models.TokenTypeEOF}, nil
 	}
